@@ -123,14 +123,22 @@ def fnorm(ir, t, v):
 
 
 def unspellable_none(ir, t, v):
-    """None/empty for a mandatory member cannot be spelled (no explicit null in a query string)"""
-    if v is None or v == []:
-        return t.get('min_occurs', 0) >= 1
+    """a mandatory member whose value leaves no pair in the query string (None, empty array,
+    object without spelled members) cannot be distinguished from an absent one"""
+    if fnorm(ir, t, v) is None or v == []:
+        return t.get('min_occurs', 0) >= 1 or _has_mandatory(ir, t, v)
     if 'ref' in t and isinstance(v, dict):
         return any(unspellable_none(ir, ft, v.get(fn)) for fn, ft in gen.all_fields(ir, v.get('__class__', t['ref'])))
     for k in ('array', 'seq'):
         if k in t:
             return any(unspellable_none(ir, t[k], x) for x in v)
+    return False
+
+
+def _has_mandatory(ir, t, v):
+    if 'ref' in t and isinstance(v, dict):
+        return any(ft.get('min_occurs', 0) >= 1 or _has_mandatory(ir, ft, v.get(fn))
+                   for fn, ft in gen.all_fields(ir, v.get('__class__', t['ref'])))
     return False
 
 
